@@ -32,3 +32,17 @@ CHECKS["C08"] = dict(
          "the common rep then the six comparisons (and C++20 <=>) equal the exact order, + and - return exactly x*k1 +/- y*k2 with the raw operator's "
          "trap condition, and % equals the raw % of the scaled operands; k1, k2 come from an independent gcd-of-rationals model.",
     note=TB + "; unit and rep pairs enumerated (equal signedness, integral); floating reps not solver-claimed.")
+CHECKS["C09"] = dict(
+    category="model_checking",
+    technique="bounded symbolic execution of clang LLVM IR of the real templates, SMT (z3/cvc5, integer emission) against an exact affine model",
+    text="Per ordered unit pair x rep, for ALL stored values: (E) no UB and exact affine result integral and representable => conversion returns exactly it; "
+         "(R) intermediates fit => no UB trap; mixed-unit/mixed-rep comparisons, <=> and point-point differences equal the exact order/displacement of "
+         "positions in the common point unit. Value half only.",
+    note=TB + "; unit pairs enumerated; 'must not compile' half is outside; origin representation units are a datum of the model.")
+CHECKS["C10"] = dict(
+    category="model_checking",
+    technique="bounded symbolic execution of clang LLVM IR of the real templates, SMT (z3/cvc5) plus closed compile-time facts checked against an exact rational model",
+    text="Per list of point units (pairs, triples; library + seeded random generated units): multiplier m and offset o are read off each to-common-point-unit kernel and the solver "
+         "proves to_cpu(x) == x*m + o for ALL x (mod 2^64 unsigned; exact and trap-free when it fits, signed); closed facts: m positive integer, o non-negative, one common unit "
+         "dividing the model's gcd unit, offsets consistent with exact origins, type identical under permutation/repetition, equals an input exactly when m=1,o=0.",
+    note=TB + "; lists enumerated; type-identity facts are compile-time booleans, not solver-decided.")
